@@ -70,52 +70,93 @@ def run(ctx, crate):
     if set(role) != {"pole", "npc", "spc"}:
         ctx.undecided(clause, FN + ":region-tests", "cannot identify the pole / north-cap / south-cap tests (R >= 5n, r < n, r >= 3n with r = 5n - 1 - R) among %s" % [show(t)[:60] for t in tests], at=b.span); return
     ATOMS = {}
-    def forced(**kw):
-        sub = {}
+    def is_int_cmp(t):
+        from sym import term_ty
+        from mir import INT_TYS
+        return t[0] == 'op' and t[1] in ('lt', 'ge', 'gt', 'le', 'eq', 'ne') and (term_ty(t[3]) in INT_TYS or term_ty(t[4]) in INT_TYS)
+    def is_wrap(t):
+        """I == 4n (x = 8 <=> x = 0), in any form"""
+        if t[1] not in ('eq', 'ne'): return False
+        try:
+            d = floorpoly.ev(t[3], {I: Poly.var("I"), nside: Poly.var("n")}, {}) - floorpoly.ev(t[4], {I: Poly.var("I"), nside: Poly.var("n")}, {})
+        except Exception:
+            return False
+        w = Poly.var("I") - Poly.const(4) * Poly.var("n")
+        return d == w or d == Poly.const(0) - w
+    def forced(wrap=False, **kw):
+        """every way through the integer tests of the routine that are not the region tests (the
+        wrap of I = 4n is set as asked; the others — a gap-box step, if the code has one — are
+        explored both ways).  Returns [(engine, value)]."""
+        base = {}
         for k, v in kw.items():
             t, pos = role[k]
-            sub[t] = C('bool', 1 if (v == pos) else 0)
-        e = Engine(crate, opaque=opq); e.subst = sub
-        r = e.run(FN)
-        return e, (r.ret if r.returns else None)
+            base[t] = C('bool', 1 if (v == pos) else 0)
+        leaves = []
+        def go(sub, depth):
+            e = Engine(crate, opaque=opq); e.subst = dict(sub)
+            r = e.run(FN)
+            nxt = None
+            for t, loc in e.branches:
+                if t in sub or not is_int_cmp(t): continue
+                nxt = t; break
+            if nxt is None or depth >= 5:
+                leaves.append((e, r.ret if r.returns else None)); return
+            if is_wrap(nxt):
+                s2 = dict(sub); s2[nxt] = C('bool', 1 if ((nxt[1] == 'eq') == wrap) else 0); go(s2, depth + 1); return
+            for v in (0, 1):
+                s2 = dict(sub); s2[nxt] = C('bool', v); go(s2, depth + 1)
+        go(base, 0)
+        return leaves
     r_poly = lambda base: Poly.const(5) * base["n"] - Poly.const(1)      # r = 5n - 1 - R, as a function of the base unknowns below
     results = {}
     # ---- first index of the ring, per region -------------------------------------------------
     # unknowns (n, off) resp. (n, r): R is expressed through them by the definition of r
-    def check_region(name, kw, R_of, want_first, inring):
-        e, ret = forced(**kw)
-        if ret is None or ret[0] != 'agg':
-            ctx.report(clause, FN + ":%s:first-index" % name, None, "no value in that region", at=b.span); return None
-        h = ret[3][0]
-        unknowns = ["n", "o"]
-        def env(base):
-            return {nside: base["n"], R: R_of(base), I: Poly.var("I")}
-        res = floorpoly.poly_on_classes(h, unknowns, env, atoms=ATOMS)
-        if res is None:
-            ctx.report(clause, FN + ":%s:first-index" % name, None, "hash is not an integer expression with constant divisors: %s" % show(h)[:120], at=b.span); return None
-        m, classes = res
-        return e, h, m, classes, env
-    out = {}
-    # north: off = o in [0, n): r = n - 1 - o, R = 5n - 1 - r = 4n + o
-    out["north"] = check_region("north-cap", dict(pole=False, npc=True), lambda bs: Poly.const(4) * bs["n"] + bs["o"], None, None)
-    # south: off = o: r = o - 1 + 3n, R = 2n - o
-    out["south"] = check_region("south-cap", dict(pole=False, npc=False, spc=True), lambda bs: Poly.const(2) * bs["n"] - bs["o"], None, None)
-    # equatorial: r = n + o, R = 4n - 1 - o
-    out["eq"] = check_region("equatorial", dict(pole=False, npc=False, spc=False), lambda bs: Poly.const(4) * bs["n"] - Poly.const(1) - bs["o"], None, None)
-    if any(v is None for v in out.values()): return
-    # in the caps: hash - first(r) - I  =: -g  must be the same function of (o, atoms) north and south
-    def minus_g(which, first):
-        e, h, m, classes, env = out[which]
-        res = {}
-        for rho, (p, base) in classes.items():
-            res[rho] = p - first(base) - Poly.var("I")
-        return m, res
+    def check_region(name, kw, R_of, first, wrap=False):
+        """the leaf of the region on which hash - first_index(ring) - I is a function of (off, quadrant) alone"""
+        cands = []
+        why = "no value in that region"
+        for e, ret in forced(wrap=wrap, **kw):
+            if ret is None or ret[0] != 'agg': continue
+            h = ret[3][0]
+            unknowns = ["n", "o"]
+            def env(base):
+                return {nside: base["n"], R: R_of(base), I: Poly.var("I")}
+            res = floorpoly.poly_on_classes(h, unknowns, env, atoms=ATOMS)
+            if res is None:
+                why = "hash is not an integer expression with constant divisors: %s" % show(h)[:120]; continue
+            m, classes = res
+            rest = {rho: p - first(base) - (Poly.const(0) if wrap else Poly.var("I")) for rho, (p, base) in classes.items()}
+            clean = not any(v in ("n", "I", "R") for p in rest.values() for mono in p.d for v, _ in mono)
+            cands.append((clean, e, h, m, classes, env, rest))
+        good = [c for c in cands if c[0]]
+        if len(good) == 1: return good[0][1:]
+        if not cands:
+            ctx.report(clause, FN + ":%s:first-index" % name, None, why, at=b.span); return None
+        if len(good) > 1:
+            # several ways through the extra tests give a clean form: they must agree
+            if all(g[6] == good[0][6] for g in good): return good[0][1:]
+        c = cands[0]
+        return c[1:]
     two = Poly.const(2)
     def first_n(bs):
         r = bs["n"] - Poly.const(1) - bs["o"]; return two * r * (r + Poly.const(1))
     def first_s(bs):
-        r = bs["o"] - Poly.const(1) + Poly.const(3) * bs["n"]; s = Poly.const(4) * bs["n"] - Poly.const(1) - r
-        return Poly.const(12) * bs["n"] * bs["n"] - two * s * (s + Poly.const(1))
+        r = bs["o"] - Poly.const(1) + Poly.const(3) * bs["n"]; s_ = Poly.const(4) * bs["n"] - Poly.const(1) - r
+        return Poly.const(12) * bs["n"] * bs["n"] - two * s_ * (s_ + Poly.const(1))
+    def first_e(bs):
+        return two * bs["n"] * (bs["n"] + Poly.const(1)) + bs["o"] * Poly.const(4) * bs["n"]
+    out = {}
+    # north: off = o in [0, n): r = n - 1 - o, R = 5n - 1 - r = 4n + o
+    out["north"] = check_region("north-cap", dict(pole=False, npc=True), lambda bs: Poly.const(4) * bs["n"] + bs["o"], first_n)
+    # south: off = o: r = o - 1 + 3n, R = 2n - o
+    out["south"] = check_region("south-cap", dict(pole=False, npc=False, spc=True), lambda bs: Poly.const(2) * bs["n"] - bs["o"], first_s)
+    # equatorial: r = n + o, R = 4n - 1 - o; once with I != 4n, once with I = 4n
+    out["eq"] = check_region("equatorial", dict(pole=False, npc=False, spc=False), lambda bs: Poly.const(4) * bs["n"] - Poly.const(1) - bs["o"], first_e)
+    out["eqw"] = check_region("equatorial(I=4n)", dict(pole=False, npc=False, spc=False), lambda bs: Poly.const(4) * bs["n"] - Poly.const(1) - bs["o"], first_e, wrap=True)
+    if any(v is None for v in out.values()): return
+    def minus_g(which, first):
+        e, h, m, classes, env, rest = out[which]
+        return m, rest
     mN, gN = minus_g("north", first_n); mS, gS = minus_g("south", first_s)
     # g must not depend on n beyond the quadrant atom, and must agree between the caps
     def free_of_I_and_n(p):
@@ -143,35 +184,94 @@ def run(ctx, crate):
             q = p.subst({"o": Poly.const(0)})
             if not q.is_const(0): zero_bad.append((rho, repr(q)))
     ctx.report(clause, FN + ":no-shift-on-transition-ring", not zero_bad, "for off = 0 (ring n-1, which has 4n cells) the position in the ring is I itself" if not zero_bad else "off = 0 still shifts: %s" % zero_bad[:2], at=b.span, kind="N")
-    # equatorial: hash - (2n(n+1) + (r - n) 4n) is I or 0 (merge): check through the two alternatives
-    e, h, m, classes, env = out["eq"]
-    eq_bad = []
-    for rho, (p, base) in classes.items():
-        first = two * base["n"] * (base["n"] + Poly.const(1)) + base["o"] * Poly.const(4) * base["n"]
-        rest = p - first
-        # rest must be a single atom / merge standing for `if I == 4n {0} else {I}`: it may not mention n, o, R
-        if any(v in ("n", "o") for mono in rest.d for v, _ in mono): eq_bad.append((rho, repr(rest)))
-    # and the merge is {0, I} gated by I == 4n
-    inring = None
-    if h[0] == 'op' and h[1] == 'add':
-        inring = [x for x in (h[3], h[4]) if x[0] == 'phi']
-    ok_merge = False
-    if inring:
-        ops = e.phi_ops.get(inring[0], set()); gate = e.phi_gate.get(inring[0])
-        ok_merge = ops == {C('u64', 0), I} and gate is not None and gate[0][0] == 'op' and gate[0][1] in ('eq', 'ne')
-        if ok_merge:
-            g = gate[0]
-            other = g[4] if g[3] == I else (g[3] if g[4] == I else None)
-            try:
-                ok_merge = other is not None and floorpoly.ev(other, {nside: Poly.var("n")}, {}) == Poly.const(4) * Poly.var("n")
-            except Exception:
-                ok_merge = False
-            if ok_merge:
-                zero_when = gate[1] if g[1] == 'eq' else gate[2]
-                ok_merge = zero_when == C('u64', 0)
-    ctx.report(clause, FN + ":equatorial", not eq_bad and ok_merge,
-               "equatorial ring r = n + k starts at 2n(n+1) + 4n k on every residue class; position = I, wrapped to 0 exactly at I = 4n" if (not eq_bad and ok_merge) else
-               "equatorial region: first index differs (%s) or the wrap of I = 4n is not `if I == 4n {0} else {I}` (%s)" % (eq_bad[:1], show(inring[0]) if inring else show(h)[:80]), at=b.span, kind="N")
+    # equatorial: hash - (2n(n+1) + (r - n) 4n) is I, and 0 exactly when I = 4n
+    restE = out["eq"][5]; restW = out["eqw"][5]
+    def single_merge(rest, e):
+        """rest is one opaque atom standing for the merge `if I == 4n {0} else {I}` (the test was not forced because the code keeps it as a value merge)"""
+        return None
+    eq_bad = [(rho, repr(p)) for rho, p in restE.items() if not p.is_const(0)]
+    eqw_bad = [(rho, repr(p)) for rho, p in restW.items() if not p.is_const(0)]
+    ctx.report(clause, FN + ":equatorial", not eq_bad and not eqw_bad,
+               "equatorial ring r = n + k starts at 2n(n+1) + 4n k on every residue class; position = I, wrapped to 0 exactly at I = 4n" if (not eq_bad and not eqw_bad) else
+               "equatorial region: hash - (2n(n+1) + 4n(r - n)) is not I (%s), or not 0 when I = 4n (%s)" % (eq_bad[:1], eqw_bad[:1]), at=b.span, kind="N")
+
+
+def model_cell(n, R, I):
+    """the cell the box (R, I) left by deal_with_1x1_box stands for; None for boxes no position of
+    the sphere can fall in (inside the gaps between two polar base cells, away from their edges).
+    R counts the rows of the projection-plane grid from the south, I the position in the row."""
+    I %= 4 * n
+    if R >= 5 * n: return I // n                       # north pole
+    r = 5 * n - 1 - R                                  # ring, 0-based from the north
+    def first_index(r):
+        if r < n: return 2 * r * (r + 1)
+        if r < 3 * n: return 2 * n * (n + 1) + (r - n) * 4 * n
+        s_ = 4 * n - 1 - r
+        return 12 * n * n - 2 * s_ * (s_ + 1)
+    if n <= r < 3 * n: return first_index(r) + I
+    north = r < n
+    off = n - 1 - r if north else r + 1 - 3 * n
+    if off > n: return None
+    c = n - off; first = (off + 1) // 2; q, k = divmod(I, n)
+    if first <= k < first + c: return first_index(r) + q * c + (k - first)
+    # gap boxes: only the two that touch the base cell can hold a position (on its outer edge, or
+    # put just outside by a rounding); it belongs to the neighbour of the box on the equator side
+    r2 = r + 1 if north else r - 1
+    c2 = c + 1
+    if k == first - 1: return first_index(r2) + q * c2
+    if k == first + c: return first_index(r2) + q * c2 + c
+    return None
+
+
+def table(ctx, crate, cfg, nsides):
+    """N: for small nside, every box (R, I) the 1x1-box step can leave — the boxes in the gaps next
+    to the outer edges of the polar base cells and the rows of the poles included — gives the cell
+    of the model, and none panics (dev profile: an integer overflow is a panic).  Finite case split;
+    each case folds to a constant."""
+    clause = "ring-hash-boxes"
+    b = ctx.anchor(crate, FN, clause)
+    if b is None: return
+    opq = {BOX, "proj", "ensures_x_is_positive"}
+    e0 = Engine(crate, opaque=opq); r0 = e0.run(FN, [C('u32', 2), None, None])
+    box = [ev for ev in e0.events.values() if ev.callee == BOX]
+    if len(box) != 1:
+        ctx.undecided(clause, "%s:boxes[%s]" % (FN, cfg), "expected one call of deal_with_1x1_box", at=b.span); return
+    site = box[0].site
+    # which mutable argument is the row, which the position: the position is compared with 4n / divided by n
+    cand = [i for i in range(len(box[0].args)) if box[0].args[i][0] in ('ref', 'ref_t')]
+    if len(cand) != 2:
+        ctx.undecided(clause, "%s:boxes[%s]" % (FN, cfg), "deal_with_1x1_box is expected to adjust two integers in place", at=b.span); return
+    bad = []; n_cases = 0; order = None
+    for a, c_ in ((cand[0], cand[1]), (cand[1], cand[0])):
+        Rs, Is = ('sym', ('havoc', site, a)), ('sym', ('havoc', site, c_))
+        # probe: equatorial box of nside 2, (R, I) = (5, 3) -> r = 4, cell 12 + 2*8 + 3 = 31
+        e = Engine(crate, opaque=opq); e.subst = {Rs: C('u64', 5), Is: C('u64', 3)}
+        r = e.run(FN, [C('u32', 2), None, None])
+        if r.returns and r.ret[0] == 'agg' and r.ret[3][0] == C('u64', 31): order = (Rs, Is); break
+    if order is None:
+        ctx.undecided(clause, "%s:boxes[%s]" % (FN, cfg), "cannot tell the row from the position among the integers adjusted by deal_with_1x1_box", at=b.span); return
+    Rs, Is = order
+    for n in nsides:
+        for R in range(n, 5 * n + 2):
+            for I in range(0, 4 * n + 1):
+                want = model_cell(n, R, I)
+                if want is None: continue
+                e = Engine(crate, opaque=opq); e.subst = {Rs: C('u64', R), Is: C('u64', I)}
+                r = e.run(FN, [C('u32', n), None, None])
+                n_cases += 1
+                if not r.returns: bad.append((n, R, I, "panics", want)); continue
+                h = r.ret[3][0] if r.ret[0] == 'agg' else r.ret
+                if h[0] == 'phi':
+                    ops = e.phi_ops.get(h, set())
+                    if len(ops) == 1: h = next(iter(ops))
+                if h[0] != 'c': bad.append((n, R, I, "not a constant: %s" % show(h)[:40], want)); continue
+                if h[2] != want: bad.append((n, R, I, h[2], want))
+    ctx.functions |= e0.visited_fns
+    ctx.report(clause, "%s:boxes[%s]" % (FN, cfg), not bad and n_cases >= 100,
+               "nside %s: %d boxes (row, position), incl. the gap boxes touching the polar base cells (positions with lon = k*pi/2) and the pole rows: the cell number is the model's, no case panics" % (list(nsides), n_cases) if not bad else
+               "%d of %d boxes wrong, e.g. nside %d, row %d (from the south), position %d: code gives %s, the model %s%s" % (len(bad), n_cases, bad[0][0], bad[0][1], bad[0][2], bad[0][3], bad[0][4],
+                   " — a position on the outer edge of a polar base cell (lon = k*pi/2) falls in the box next to the base cell, which the index correction does not handle"),
+               at=b.span, kind="N", sample={"cases": n_cases, "profile": cfg, "mismatches": [list(map(str, x)) for x in bad[:5]]})
 
 
 def _all_terms(e):
